@@ -55,6 +55,9 @@ func (f *RenamePackage) Call(s *slip.Scope, args slip.List, depth int) (result s
 	if pkg == nil {
 		slip.PackagePanic(s, depth, nil, "Package %s does not exist.", args[0])
 	}
+	if pkg.Locked {
+		slip.PackagePanic(s, depth, pkg, "Package %s is locked and can not be renamed.", pkg)
+	}
 	name := slip.MustBeString(args[1], "new-name")
 	if slip.FindPackage(name) != nil {
 		slip.ErrorPanic(s, depth, "Package %s already exists.", name)
